@@ -257,3 +257,21 @@ package vm
 //@ requires op == opcode.REMOVE && v.getPrice == nil && wfStack(v.estack) && len(v.estack.elems) >= 2 && is(v.estack.elems[len(v.estack.elems)-2].value, *stackitem.Struct) && is(v.estack.elems[len(v.estack.elems)-1].value, *stackitem.BigInteger)
 //@ call (*refCounter).Remove requires[removed] arg1 == old(v.estack.elems[len(v.estack.elems)-2].value.(*stackitem.Struct).value[stackitem.intOf(v.estack.elems[len(v.estack.elems)-1].value)])
 //@ ensures[once] ncalls("(*refCounter).Remove") <= 1
+
+// Unloading a context (C12): its own slots are released always; the static slot is shared by all
+// contexts of one script and is released only by the last of them - after the context now on top
+// has been looked up and found to belong to another script.
+//@ prop C12
+//@ func (Slot).clearRefs
+//@ assumed
+//@ opt frame off
+//@ opt callers trust
+//@ func (*VM).unloadContext
+//@ may-panic
+//@ opt frame off
+//@ opt callbacks pure
+//@ opt stable ctx.sc, ctx.sc.static, ctx.local, ctx.arguments
+//@ requires v != nil && ctx != nil && ctx.sc != nil
+//@ call clearRefs requires[looked] same(arg0, ctx.sc.static) && !same(arg0, ctx.local) && !same(arg0, ctx.arguments) ==> ncalls("(*VM).Context") == 1
+//@ call clearRefs requires[last] same(arg0, ctx.sc.static) && !same(arg0, ctx.local) && !same(arg0, ctx.arguments) ==> ctx.sc != currCtx.sc
+//@ call clearRefs requires[own] ncalls("(*VM).Context") == 0 ==> same(arg0, ctx.local) || same(arg0, ctx.arguments)
